@@ -648,14 +648,18 @@ func (res *Response) flush(conn io.Writer) error {
 		pdata = mempool.AppendString(pdata, "0\r\n")
 		for k, v := range res.trailer {
 			// a trailer is usually set after the body: send what the
-			// header holds now, not what it held when the head went out.
-			if latest := res.header.Get(k); latest != "" {
-				v = latest
+			// header holds now, every value of it, not what it held when
+			// the head went out.
+			values := res.header[k]
+			if len(values) == 0 || (len(values) == 1 && values[0] == "") {
+				values = []string{v}
 			}
-			pdata = mempool.AppendString(pdata, k)
-			pdata = mempool.AppendString(pdata, ": ")
-			pdata = mempool.AppendString(pdata, v)
-			pdata = mempool.AppendString(pdata, "\r\n")
+			for _, v = range values {
+				pdata = mempool.AppendString(pdata, k)
+				pdata = mempool.AppendString(pdata, ": ")
+				pdata = mempool.AppendString(pdata, v)
+				pdata = mempool.AppendString(pdata, "\r\n")
+			}
 		}
 		pdata = mempool.AppendString(pdata, "\r\n")
 	}
